@@ -11,6 +11,7 @@ import (
 	"crypto/x509/pkix"
 	"encoding/pem"
 	"math/big"
+	"sync"
 	"time"
 )
 
@@ -25,6 +26,7 @@ type testCA struct {
 }
 
 type testPKI struct {
+	mu     sync.Mutex
 	CAs    []*testCA                    // CA1, CA2, CA3(unknown to every configuration)
 	leaves map[string]*tls.Certificate  // "<ca-index>/<host>"
 	parsed map[string]*x509.Certificate // same key
@@ -51,6 +53,8 @@ func initPKI() {
 // leaf returns a server certificate for host issued by CA ca (created on first use, outside bubbles
 // is not required: pure computation).
 func (p *testPKI) leaf(ca int, host string) (*tls.Certificate, *x509.Certificate) {
+	p.mu.Lock()
+	defer p.mu.Unlock()
 	key := string(rune('0'+ca)) + "/" + host
 	if c, ok := p.leaves[key]; ok {
 		return c, p.parsed[key]
